@@ -13,7 +13,7 @@ PROP = 'C14'
 MANIFEST = dict(
     technique='TLA+ model (DmxGraph, DmxGraphKv1) checked by TLC; every model transition replayed on real srctools.dmx Elements; written bytes projected by an independent binary walker / KeyValues2 scanner; all records validated by TLC (DmxGraphTrace)',
     category='model_checking',
-    text='TLC exhausts the element-graph design: all reference graphs over 3 elements with up to 3 (thorough 4) attribute/array slots (self reference, mutual cycles, shared children, NULL and stubs inside arrays, empty arrays) x binary v1-v5 and KeyValues2 nested/flat x cull_uuid, and every plain value type as scalar / 1- and 2-element / empty array plus text of three classes in every place text can stand x 9 encodings x 3 unicode modes, with the invariants: type codes decode to what was encoded, the element table is a valid listing, the abstract binary file parses back to the graph, the text writer terminates, parse(export(g)) is isomorphic to g keeping exactly the UUIDs the encoding stores, inexpressible combinations are refused. Every one of these transitions is executed on real Element objects; TLC then checks each logged case against the same operators: the element table, type bytes, array counts, reference indexes, values and string table found in the written bytes by an independent reader equal BinFile(g); the top-level elements and id lines of the text equal Kv2Top/Keep; the parsed graph equals ParseBin(bytes) and is isomorphic to g; from_kv1/to_kv1 equal FromKv1/ToKv1 for all 9114 (quick 614) small trees. Seeded random graphs up to 25 elements with all value types far outside the bounds are validated the same way.',
+    text='TLC exhausts the element-graph design: all reference graphs over 3 elements with up to 3 (thorough 4) attribute/array slots (self reference, mutual cycles, shared children, NULL and stubs inside arrays, empty arrays) x binary v1-v5 and KeyValues2 nested/flat x cull_uuid, and every plain value type as scalar / 1- and 2-element / empty array plus text of three classes in every place text can stand, and the name attribute as an optional member (removed by del/pop/clear, removed and set again behind other attributes, spelled Name; on a lone root, on a root followed by a child with attributes, on the child) x 9 encodings x 3 unicode modes, with the invariants: type codes decode to what was encoded, the element table is a valid listing, the abstract binary file parses back to the graph, the text writer terminates, parse(export(g)) is isomorphic to g keeping exactly the UUIDs the encoding stores, inexpressible combinations are refused. Every one of these transitions is executed on real Element objects; TLC then checks each logged case against the same operators: the element table, type bytes, array counts, reference indexes, values and string table found in the written bytes by an independent reader equal BinFile(g); the top-level elements and id lines of the text equal Kv2Top/Keep; the parsed graph equals ParseBin(bytes) and is isomorphic to g; from_kv1/to_kv1 equal FromKv1/ToKv1 for all 9114 (quick 614) small trees. Seeded random graphs up to 25 elements with all value types far outside the bounds are validated the same way.',
     design_ref='4 (C14)',
     note='Values are opaque symbols for TLC (the driver maps concrete values to symbols by exact equality; numbers are drawn exactly representable in float32 / 1e-4 time / six decimals so every encoding must return them unchanged). Element types that collide with value-type names and binary v0 are outside the property. Pure-Python tree only.',
 )
@@ -101,7 +101,7 @@ def run(tier: str, seed: int) -> int:
             exports += n_exp
             builds += n_build
             recs.append(out)
-        want = {'scalar_ref', 'ref_array', 'append_ref', 'value', 'place', 'export', 'parse'}
+        want = {'scalar_ref', 'ref_array', 'append_ref', 'value', 'place', 'nameplace', 'export', 'parse'}
         if not want <= set(actions):
             raise core.MachineryError(f'vacuous model: actions never taken: {want - set(actions)}')
         recs.append(kv_out)
